@@ -81,7 +81,7 @@ fn run(c: &Value) -> Result<(), (String, String)> {
             let act = a[0].as_str().unwrap();
             match act {
                 "start" | "timeout" | "giveup" => {}          // the client does these by itself (at spawn, at the tick that reaches the deadline)
-                "tick" => tokio::time::advance(tick).await,
+                "tick" => tokio::time::sleep(tick).await,
                 "notify" => notify.notify(),
                 "serve" => {
                     // the next whole query: serial query 12 bytes, reset query 8
@@ -161,5 +161,98 @@ pub fn replay(args: &[String]) {
         if i % 4999 == 3 { s.sample(c.clone()); }
     }
     let _ = json!(null);
+    s.print();
+}
+
+/// impl -> spec: one long randomly scheduled conversation (real client, real server, commanded wire, paused clock); after every
+/// action the observable counters are recorded; spec/Trace_RtrPacing.tla must explain every line (time in milliseconds).
+pub fn drive(args: &[String]) {
+    let seed = arg_u64(args, "--seed", 1);
+    let n = arg_u64(args, "--n", 120);
+    let runs = arg_u64(args, "--runs", 6);
+    let out = arg_val(args, "--out").expect("--out");
+    let mut t = TraceOut::create(&out);
+    let mut s = Summary::new();
+    for run in 0..runs {
+        let mut rng = Rng::new(seed.wrapping_mul(1000) + run);
+        let src = Source(Arc::new(Mutex::new(SrcState {
+            evlog: None,
+            hist: vec![Version { session: 1, serial: 5, data: vec![(0, "o4".into(), 0), (1, "k1".into(), 0)] }],
+            timing: 3, window: 1, serial_base: 0, calls: 0, pending: vec![], ready: true, cut_at: None, dead: Default::default(), order_desc: false,
+        })));
+        let (wc, ws) = (Arc::new(Mutex::new(Wire::default())), Arc::new(Mutex::new(Wire::default())));
+        let applied = Arc::new(AtomicUsize::new(0));
+        let rt = tokio::runtime::Builder::new_current_thread().enable_time().start_paused(true).build().unwrap();
+        let mut evs: Vec<Value> = vec![json!({"ev": "reset"})];
+        rt.block_on(async {
+            let mut notify = NotifySender::new();
+            let listener = Box::pin(futures_util::stream::iter(vec![Ok::<CtlSock, std::io::Error>(CtlSock(ws.clone()))]));
+            let server = Server::new(listener, notify.clone(), src.clone());
+            let hs = tokio::spawn(async move { let _ = server.run().await; });
+            let mut client = Client::with_initial_version(1, CtlSock(wc.clone()), Count(applied.clone()), None);
+            let ended: Arc<Mutex<Option<String>>> = Arc::new(Mutex::new(None));
+            let e2 = ended.clone();
+            let hc = tokio::spawn(async move {
+                let r = client.run().await;
+                *e2.lock().unwrap() = Some(match r { Ok(()) => "eof".to_string(), Err(e) => e.to_string() });
+            });
+            let settle = || async { for _ in 0..40 { tokio::task::yield_now().await; } };
+            let (mut c2s, mut s2c): (Vec<u8>, Vec<u8>) = (vec![], vec![]);
+            let mut queries = 0u64;
+            let steps: [u64; 14] = [1, 500, 2500, 4999, 5000, 5001, 9999, 10000, 10001, 15000, 19999, 20000, 20001, 30000];
+            for i in 0..=n {
+                let mut ev = if i == 0 { json!({"ev": "start"}) } else {
+                    // mostly keep the conversation going (serve and deliver promptly), now and then let things cross or time out
+                    let busy = queries as usize > applied.load(Ordering::SeqCst);
+                    let mut opts: Vec<&str> = vec![];
+                    for _ in 0..(if busy { 1 } else { 5 }) { opts.push("advance"); }
+                    if applied.load(Ordering::SeqCst) >= 1 { opts.push("notify"); if !busy { opts.push("notify"); } }
+                    if c2s.len() >= 8 { for _ in 0..8 { opts.push("serve"); } }
+                    if first_message(&s2c).is_some() { for _ in 0..8 { opts.push("deliver"); } }
+                    match *rng.pick(&opts) {
+                        "advance" => {
+                            let dt = if busy && rng.chance(5, 6) { rng.range(1, 1500) } else if rng.chance(1, 4) { rng.range(1, 25000) } else { *rng.pick(&steps) };
+                            tokio::time::sleep(Duration::from_millis(dt)).await;   // (the paused clock auto-advances from timer to timer: every timer fires at its own instant)
+                            json!({"ev": "advance", "dt": dt})
+                        }
+                        "notify" => { notify.notify(); json!({"ev": "notify"}) }
+                        "serve" => {
+                            let l = u32::from_be_bytes([c2s[4], c2s[5], c2s[6], c2s[7]]) as usize;
+                            let q: Vec<u8> = c2s.drain(..l).collect();
+                            deliver(&ws, &q);
+                            json!({"ev": "serve"})
+                        }
+                        _ => {
+                            let l = first_message(&s2c).unwrap();
+                            let m: Vec<u8> = s2c.drain(..l).collect();
+                            deliver(&wc, &m);
+                            json!({"ev": "deliver"})
+                        }
+                    }
+                };
+                settle().await;
+                let mut fresh = vec![];
+                drain(&wc, &mut fresh);
+                // whole queries only (a query is written in one go)
+                let mut p = 0;
+                while fresh.len() >= p + 8 { let l = u32::from_be_bytes([fresh[p + 4], fresh[p + 5], fresh[p + 6], fresh[p + 7]]) as usize; if l < 8 || fresh.len() < p + l { break; } p += l; queries += 1; }
+                c2s.extend_from_slice(&fresh);
+                drain(&ws, &mut s2c);
+                let end = ended.lock().unwrap().clone();
+                ev["q"] = json!(queries);
+                ev["a"] = json!(applied.load(Ordering::SeqCst));
+                ev["end"] = json!(match &end { None => "no", Some(w) if w.contains("timed out") => "timedout", Some(_) => "failed" });
+                evs.push(ev);
+                if end.is_some() { break; }
+            }
+            hc.abort();
+            hs.abort();
+        });
+        let last = evs.last().unwrap()["end"].as_str().unwrap().to_string();
+        s.count(&format!("runs_end_{last}"), 1);
+        s.evals(evs.len() as u64);
+        for e in evs { t.ev(e); }
+    }
+    s.set("events", json!(t.finish()));
     s.print();
 }
